@@ -22,6 +22,7 @@ import RigModel.Lemmas.C03Ner
 import RigModel.Lemmas.C03Repair
 import RigModel.Lemmas.C03Forest
 import RigModel.Lemmas.C03NerValid
+import RigModel.Lemmas.C03AStarComplete
 import RigModel.Props.Cross03_11
 set_option linter.unusedSimpArgs false
 set_option linter.unusedVariables false
@@ -295,5 +296,45 @@ example : (match nerNet (0, 0) [(1, 3), (0, 4)] 2 5 true 0 [1, 2, 3, 4, 0, 5, 6,
     | .error _ => false) = true ∧ L.FaultFree ⟨2, 5, [], []⟩ true := by
   refine ⟨by decide +kernel, rfl, ?_⟩
   intro c l h; simp at h
+
+/-- **`route()` on the fault-free machine** (`route_only_failure` and validity, fault-free case).  With no dead
+chip and no dead link (or, when `has_wrap_around_links()` is false, only wrap-around links dead), for every
+net whose vertices are inside the machine, every radius, tape, destination order: the dead-link repair is never
+entered; the model has no error other than an oracle error (no `Disconnected`, `KeyError`, assertion, `fuel`,
+`dupNode`); and the result unfolds to a valid routing tree rooted at the source chip. -/
+theorem routeNet_faultfree (m : Machine) (hff : L.FaultFree m (hasWrap m)) (src : Chip) (dests : List Chip)
+    (radius : Nat) (t : Tape) (order : List (Chip × Chip)) (sinks : List Sink) (legacy : Bool)
+    (hs : InRange m src) (hd : ∀ d, d ∈ dests → InRange m d)
+    (hsk : ∀ s, s ∈ sinks → s.chip = src ∨ s.chip ∈ dests) :
+    (∀ r, routeNet m src dests radius t order sinks legacy = .ok r →
+      r.repaired = false ∧ r.root = src ∧
+      ∃ tr, toTree r.forest r.leaves (r.forest.length + 1) r.root = some tr ∧ ValidTree m src sinks tr) ∧
+    (∀ e, routeNet m src dests radius t order sinks legacy = .error e → e = .tape ∨ e = .badDraw) :=
+  L.routeNet_faultfree m hff src dests radius t order sinks legacy hs hd hsk
+
+/-- non-vacuity: the 1 x 2 mesh (all ten wrap-around links dead) is fault-free for a net routed without
+wrap-around, and `has_wrap_around_links()` is false on it -/
+example : hasWrap ⟨1, 2, [], [((0, 0), 0), ((0, 0), 1), ((0, 0), 3), ((0, 0), 4), ((0, 0), 5), ((0, 1), 0),
+      ((0, 1), 1), ((0, 1), 2), ((0, 1), 3), ((0, 1), 4)]⟩ = false ∧
+    L.FaultFree ⟨1, 2, [], [((0, 0), 0), ((0, 0), 1), ((0, 0), 3), ((0, 0), 4), ((0, 0), 5), ((0, 1), 0),
+      ((0, 1), 1), ((0, 1), 2), ((0, 1), 3), ((0, 1), 4)]⟩ false := by
+  refine ⟨by decide, rfl, ?_⟩
+  intro c l h
+  refine ⟨rfl, ?_⟩
+  simp only [List.mem_cons, Prod.mk.injEq, List.not_mem_nil, or_false] at h
+  rcases h with ⟨rfl, rfl⟩ | ⟨rfl, rfl⟩ | ⟨rfl, rfl⟩ | ⟨rfl, rfl⟩ | ⟨rfl, rfl⟩ | ⟨rfl, rfl⟩ | ⟨rfl, rfl⟩ |
+    ⟨rfl, rfl⟩ | ⟨rfl, rfl⟩ | ⟨rfl, rfl⟩ <;> (show ¬ Cross.InBox _ _ _; unfold Cross.InBox; decide)
+
+/-- **`aStar_complete`.**  `a_star` reports `MachineHasDisconnectedSubregion` only if no chip of `sources`
+reaches the sink over working links between working chips (the search visits every chip from which the sink
+is reachable before giving up) - for every machine, dead chips and dead links included. -/
+theorem aStar_complete (m : Machine) (sink hsrc : Chip) (sources : List Chip) (wrap : Bool)
+    (hsink : InRange m sink) (h : aStar sink hsrc sources m wrap = .error .disconnected) :
+    ∀ s, s ∈ sources → ¬ Reach m s sink :=
+  L.aStar_complete m sink hsrc sources wrap hsink h
+
+/-- non-vacuity: on a 3 x 1 machine whose chip (1, 0) is dead and whose wrap links are dead, (2, 0) is cut off -/
+example : aStar (0, 0) (2, 0) [(2, 0)] ⟨3, 1, [(1, 0)], [((2, 0), 0), ((2, 0), 1), ((2, 0), 5), ((2, 0), 2),
+    ((2, 0), 4)]⟩ false = .error .disconnected := by rfl
 
 end Rig.C03
